@@ -1138,5 +1138,59 @@ def rule_drain_cannot_abort(ctx):
 
 
 
+
+def rule_transport_failures_are_transport_errors(ctx):
+    """C11.q  Every way a transport can fail reaches the close sequence.  The receiver and the sender catch
+    RSocketTransportError - and nothing else - as "the connection is gone"; any other exception leaves the receiver
+    through `except Exception: raise`, past _on_connection_closed(): pending requests are not failed, on_close is not
+    delivered.  So what the transport layer raises for a failed read or write is that class or a subclass of it: every
+    `raise` in wrap_transport_exception and every explicit raise of a library exception in rsocket.transports.*
+    names RSocketTransportError or a subclass (a sibling class such as RSocketTransportClosed is not caught)."""
+    rep = ctx.report
+    repo = ctx.repo
+    base = repo.cls('rsocket.exceptions:RSocketTransportError')
+    w = repo.module('rsocket.helpers').functions.get('wrap_transport_exception')
+    if base is None or not w:
+        raise AnalysisError('C11.q: RSocketTransportError / wrap_transport_exception vanished')
+    fns = [w[-1]] + [f for f in repo.all_functions() if f.module.name.startswith('rsocket.transports')]
+    n = 0
+    bad = []
+    for f in fns:
+        for r in walk_local(f.node):
+            if not isinstance(r, ast.Raise) or r.exc is None:
+                continue
+            e = r.exc.func if isinstance(r.exc, ast.Call) else r.exc
+            if not isinstance(e, ast.Name):
+                continue
+            k = repo.resolve_name(f.module, e.id)
+            if not isinstance(k, ClassInfo) or not k.module.name.startswith('rsocket.'):
+                continue
+            n += 1
+            if not (k is base or k.is_subclass_of(base)):
+                bad.append((f, r, k))
+    # the wrapper has a catch-all that converts
+    handlers = [h for t in walk_local(w[-1].node) if isinstance(t, ast.Try) for h in t.handlers]
+    catch_all = any(h.type is None or ast.unparse(h.type) in ('Exception', 'BaseException') for h in handlers)
+    rep.require('C11.q', 'raises of the transport layer', n, 2)
+    for f, r, k in bad:
+        rep.bad('C11.q', '%s / raises %s' % (f.short, k.name), f,
+                'line %d: %s is not an RSocketTransportError: the receiver and the sender do not take it for the end '
+                'of the connection, the close sequence does not run' % (r.lineno, k.name))
+    rep.add('C11.q', 'wrap_transport_exception / every failure becomes a transport error', w[-1],
+            catch_all and not [b for b in bad if b[0] is w[-1]],
+            'every exception of the wrapped I/O is re-raised as RSocketTransportError (or a subclass)' if catch_all
+            else 'the wrapper has no catch-all that converts')
+
+
+
+
+def rule_transport_close_contained(ctx):
+    """(shared C17.j)  close() of the socket returns normally: the transport's close() keeps the CancelledError of the
+    feeder task it cancels to itself (rules/msgtransports.py)."""
+    from .msgtransports import rule_close_contains_its_own_cancellation
+    rule_close_contains_its_own_cancellation(ctx, 'C17.j')
+
+
+
 RULES = [('C11.a', rule_a), ('C11.b', rule_b), ('C11.b', rule_b2), ('C11.c', rule_c), ('C11.d', rule_d), ('C11.e', rule_e),
-         ('C11.f', rule_f), ('C11.g', rule_g), ('C11.h', rule_h), ('C11.i', rule_i), ('C11.f', rule_wrap), ('C11.g+C11.e', rule_plumbing), ('C11.j', rule_group_close), ('C11.k', rule_k), ('C11.l', rule_l), ('C11.m', rule_m), ('C11.k', rule_termination_event), ('C11.n', rule_no_wait_cycle), ('C11.o', rule_close_does_not_wait_for_the_peer), ('C11.p', rule_wait_graph), ('C09.e', rule_drain_cannot_abort)]
+         ('C11.f', rule_f), ('C11.g', rule_g), ('C11.h', rule_h), ('C11.i', rule_i), ('C11.f', rule_wrap), ('C11.g+C11.e', rule_plumbing), ('C11.j', rule_group_close), ('C11.k', rule_k), ('C11.l', rule_l), ('C11.m', rule_m), ('C11.k', rule_termination_event), ('C11.n', rule_no_wait_cycle), ('C11.o', rule_close_does_not_wait_for_the_peer), ('C11.p', rule_wait_graph), ('C09.e', rule_drain_cannot_abort), ('C11.q', rule_transport_failures_are_transport_errors), ('C17.j', rule_transport_close_contained)]
